@@ -14,6 +14,7 @@ import (
 	"strconv"
 	"strings"
 	"testing"
+	"time"
 )
 
 var govcNum = regexp.MustCompile(`\(- (\d+)\)|(\d+)`)
@@ -266,6 +267,37 @@ func TestGovcReplayStr(t *testing.T) {
 		}
 	}
 	fmt.Println("no failing input found")
+}
+
+// TestGovcReplayCloneLimits: C11 — a clone of a world evaluates under the limits of
+// the world it was cloned from (every world an authorizer runs is a clone).
+func TestGovcReplayCloneLimits(t *testing.T) {
+	w := NewWorld(WithMaxFacts(3), WithMaxIterations(50), WithMaxDuration(10*time.Second))
+	c := w.Clone()
+	for i := 0; i < 5; i++ {
+		c.AddFact(Fact{Predicate{Name: String(1), Terms: []Term{Integer(int64(i))}}})
+	}
+	syms := &SymbolTable{}
+	if err := c.Run(syms); err != ErrWorldRunLimitMaxFacts {
+		fmt.Printf("REPRODUCED: NewWorld(WithMaxFacts(3)).Clone() holding 5 facts: Run returns %v, the limit of the original world gives ErrWorldRunLimitMaxFacts\n", err)
+		t.Fail()
+		return
+	}
+	w2 := NewWorld(WithMaxFacts(1000), WithMaxIterations(2), WithMaxDuration(10*time.Second))
+	c2 := w2.Clone()
+	c2.AddFact(Fact{Predicate{Name: String(1), Terms: []Term{Integer(0)}}})
+	// n(x+1) <- n(x), x < 50 : needs 50 iterations
+	c2.AddRule(Rule{Head: Predicate{Name: String(1), Terms: []Term{Variable(3)}}, Body: []Predicate{{Name: String(2), Terms: []Term{Variable(3)}}}})
+	for i := 0; i < 10; i++ {
+		c2.AddFact(Fact{Predicate{Name: String(10 + uint64(i)), Terms: []Term{Integer(int64(i))}}})
+		c2.AddRule(Rule{Head: Predicate{Name: String(11 + uint64(i)), Terms: []Term{Variable(3)}}, Body: []Predicate{{Name: String(10 + uint64(i)), Terms: []Term{Variable(3)}}}})
+	}
+	if err := c2.Run(syms); err != ErrWorldRunLimitMaxIterations {
+		fmt.Printf("REPRODUCED: NewWorld(WithMaxIterations(2)).Clone() with a 10-step derivation chain: Run returns %v, the limit of the original world gives ErrWorldRunLimitMaxIterations\n", err)
+		t.Fail()
+		return
+	}
+	fmt.Println("NOT-REPRODUCED: clones evaluate under the fact and iteration limits of the world they were cloned from")
 }
 
 // TestGovcReplaySetOps searches sets of every element type (the quantifier of
